@@ -180,6 +180,10 @@ func writeJSON(path string, v interface{}) error {
 	if err != nil {
 		return err
 	}
+	if path == "/dev/stdout" {
+		_, err := os.Stdout.Write(append(b, '\n'))
+		return err
+	}
 	tmp := path + ".tmp"
 	if err := os.WriteFile(tmp, append(b, '\n'), 0o644); err != nil {
 		return err
